@@ -10,9 +10,15 @@ EXPLANATION = (
     'the two assemble() calls of main(), symbols.lock(), symbols.scope_reset(), pass = 2 and init() are executed. '
     'ADD-SYM: the pass-1 skip branch of add_bin8/16/32 advances the address by exactly the bytes the write branches emit. '
     'R-PASS: no encoding-relevant state written in pass 1 survives into pass 2. SYM-LOCK: Symbols::append is a no-op '
-    'returning success once the table is locked, and nothing unlocks it. Not decided: that every value-dependent size '
-    'choice of every assembler is protected by the memory_write/memory_read flag idiom (a per-path byte-count semantics '
-    'of 57 hand-written parsers).')
+    'returning success once the table is locked, and nothing unlocks it. MEMO-GOV: a value test that governs a pass-1 memo '
+    'write governs in pass 2 only statements that consult the memo. MEMO-PAIR: a memo that is written is read. MEMO-SURVIVES: '
+    'CPUs whose assembler writes the memo have pass_1_write_disable set (else add_bin overwrites it in pass 1). MEMO-ADDR: '
+    'no memo access follows an emission of the same instruction (the address has moved). PASS-FLAG: no emission-controlling '
+    'pass-2 test reads a variable that is stored only in pass 1. PASS-SIZE: a pass-2 test of a symbol-derived value against a '
+    'constant whose arms emit different byte counts when the memo says "unknown" is a violation; tests whose arms are not '
+    'finite byte sets (table search loops) are listed as not decided, with the triage classification (forward-reference '
+    'experiments, triage/passsize/) where there is one. Not decided: size decisions taken through strings or table rows '
+    '(68000 add->addq alias), parser-level differences between the passes (ignore_operand swallowing a closing token).')
 
 
 def symlock(prog):
@@ -54,5 +60,6 @@ def run(tier, t0):
     prog = common.program()
     cg = common.callgraph()
     results = [passes.interpass(prog), passes.addsym(prog), passes.rpass(prog, cg), symlock(prog),
-               passsize.memo_gov(prog), passsize.memo_pair(prog)]
+               passsize.memo_gov(prog), passsize.memo_pair(prog), passsize.memo_survives(prog, cg), passsize.memo_addr(prog),
+               passsize.pass_flag(prog), passsize.pass_size(prog)]
     return report.finish('C02', tier, results, EXPLANATION, [], common.TRUSTED, t0)
